@@ -36,6 +36,8 @@ pub enum Dev {
     ApprovedSeparatorShift(u8),
     /// approved with the chain / id / source address in another letter case, or with surrounding whitespace
     ApprovedCaseOrSpaceVariant(u8),
+    /// approved for the account-kind address that carries the same 32 bytes as the app's contract address
+    ApprovedForAddressKindTwin,
 }
 
 /// (chain, id, src) with one field put in upper case / given a space
@@ -60,7 +62,8 @@ fn case_space_variant(chain: &str, id: &str, src: &str, k: u8) -> (String, Strin
 
 const SEPS: [&str; 8] = ["", "_", ":", "-", "/", "|", ".", " "];
 
-const DEVS: [Dev; 31] = [
+const DEVS: [Dev; 32] = [
+    Dev::ApprovedForAddressKindTwin,
     Dev::None,
     Dev::NeverApproved,
     Dev::ApprovedForOtherApp,
@@ -120,10 +123,10 @@ impl Property for C16 {
         "C16"
     }
     fn rule(&self) -> &'static str {
-        "proptest single cases: app (the shipped example / a minimal harness app that calls the interface's validate_message helper and aborts on error) x delivery (chain, id, source address from small pools incl. empty strings; payload 0..600 bytes) x at most one deviation (never approved; approved for another app / payload / source address / id / chain; delivered twice; additionally approved for the other app; approval re-submitted, or the id re-approved with other content, after delivery; approved under another split of the same characters between chain and id, for 8 separators; approval and delivery differing only in letter case or a trailing space of chain / id / source address, in either direction) x 0..150 days passing between approval and delivery and between the first delivery and whatever is tried afterwards (ledger sequence and clock advanced; temporary entries of that age are gone). All 2x31 app x deviation combinations are also enumerated as fixed cases. Oracle: the app's effect (its executed event / counter) and the gateway's transition to executed happen iff the gateway held a matching unexecuted approval naming this app; otherwise the delivery fails, nothing is emitted and the ledger snapshot is identical. non-trivial = a deviation is present; distinct by Debug hash"
+        "proptest single cases: app (the shipped example / a minimal harness app that calls the interface's validate_message helper and aborts on error) x delivery (chain, id, source address from small pools incl. empty strings; payload 0..600 bytes) x at most one deviation (never approved; approved for another app / for the account-kind address with the app's 32 bytes / another payload / source address / id / chain; delivered twice; additionally approved for the other app; approval re-submitted, or the id re-approved with other content, after delivery; approved under another split of the same characters between chain and id, for 8 separators; approval and delivery differing only in letter case or a trailing space of chain / id / source address, in either direction) x 0..150 days passing between approval and delivery and between the first delivery and whatever is tried afterwards (ledger sequence and clock advanced; temporary entries of that age are gone). All 2x32 app x deviation combinations are also enumerated as fixed cases. Oracle: the app's effect (its executed event / counter) and the gateway's transition to executed happen iff the gateway held a matching unexecuted approval naming this app; otherwise the delivery fails, nothing is emitted and the ledger snapshot is identical. non-trivial = a deviation is present; distinct by Debug hash"
     }
     fn fixed_is_exhaustive(&self) -> Option<&'static str> {
-        Some("app x deviation matrix (2 x 31) enumerated completely with one fixed delivery; deliveries sampled")
+        Some("app x deviation matrix (2 x 32) enumerated completely with one fixed delivery; deliveries sampled")
     }
     fn cases(&self, tier: Tier) -> u64 {
         tier.pick(20000, 200000)
@@ -179,6 +182,7 @@ impl Property for C16 {
             Dev::None | Dev::DeliveredTwice | Dev::ResubmittedApprovalAfterDelivery | Dev::ReapprovedOtherContentAfterDelivery => vec![mk(&app, chain, id, src, &payload)],
             Dev::NeverApproved => vec![],
             Dev::ApprovedForOtherApp => vec![mk(&other_app, chain, id, src, &payload)],
+            Dev::ApprovedForAddressKindTwin => vec![mk(&kind_twin(&env, &app), chain, id, src, &payload)],
             Dev::ApprovedOtherPayload => vec![mk(&app, chain, id, src, &p2)],
             Dev::ApprovedOtherSourceAddress => vec![mk(&app, chain, id, &format!("{}x", src), &payload)],
             Dev::ApprovedOtherId => vec![mk(&app, chain, &format!("{}x", id), src, &payload)],
